@@ -92,7 +92,21 @@ class MatchReal(Contract):
             if what == 'self.filename' and cls == 'bytes':
                 return Bool(me.fn_bytes)
             if what == 'self.filename' and cls == 'type(root)':
-                return Bool(z3.Or(me.root_none, me.root_bytes == me.fn_bytes))
+                # isinstance(filename, type(root)) for whatever the code bound to `root`: the caller's root_dir (symbolic type), a '.' / b'.' constant, None
+                def inst(t):
+                    if z3.is_app(t) and t.decl().kind() == z3.Z3_OP_ITE:
+                        c, a, b = t.children()
+                        return z3.If(c, inst(a), inst(b))
+                    if z3.is_app(t) and t.decl().name() == 'inj_bytes':
+                        return me.fn_bytes
+                    if z3.is_app(t) and t.decl().name() == 'inj_str':
+                        return z3.Not(me.fn_bytes)
+                    if t.eq(z3.Const('root_dir', Obj)):
+                        return me.root_bytes == me.fn_bytes
+                    if t.eq(pyvc.NONE_OBJ):
+                        return z3.BoolVal(False)
+                    raise pyvc.Unsupported(f'type of root: {t}')
+                return Bool(inst(pyvc.to_obj(st.env['root'])))
             if what == 'self.include[0].pattern' and cls == 'type(self.filename)':
                 return Bool(me.pat_bytes == me.fn_bytes)
             raise pyvc.Unsupported(f'isinstance({what}, {cls})')
